@@ -18,6 +18,137 @@ PROPS = {
         "require_observed": ["nontrivial:unique-subst", "nontrivial:unique-closed", "nontrivial:none", "answer:slg:", "answer:recursive:"],
         "assumptions": COMMON_ASSUME,
     },
+    "C02": {
+        "level": "exploration",
+        "rule": "cases = seeded non-increasing programs (every where-clause argument is a sub-term of the impl header, so the model is exact and "
+                "derivations stay inside the goal's sub-terms) x 8 closed goals (forall/if/conjunction/not around concrete predicates) x 4 solver "
+                "configurations (SLG max_size 10 and 7, recursive (30,100) and (12,40); reduced limits only when the goal's largest type <= 4 nodes and "
+                "the model's derivation touches <= 15 atoms). Refuted by any Ambiguous answer or a Unique/None that contradicts the exact model. "
+                "Non-trivial = definite model verdict and definite answer; distinct = (program, goal, configuration, answer).",
+        "min_evals": 3000, "min_nontrivial": 1000,
+        "require_observed": ["nontrivial:definite-and-correct:none", "nontrivial:definite-and-correct:unique", "answer:slg(max_size=7)", "answer:recursive(max_size=12"],
+        "assumptions": COMMON_ASSUME,
+    },
+    "C03": {
+        "level": "exploration",
+        "rule": "cases = seeded programs (60% finite-solution non-increasing, 40% with growing where-clauses / the infinite family impl<T> Foo for Vec<T> where T: Foo) x 6 goals "
+                "with 1-2 existential variables; history recorded at Solver::solve_multiple's callback: every (answer, more-follows flag) and the return value; "
+                "three enumerations per goal: fresh to completion (cap 40), stopped after j answers, resumed on the same solver. Monitors: flag accuracy, duplicates, "
+                "soundness of each definite answer (all ground instances in the bounded universe), completeness (every true ground solution is an instance of a yielded answer; "
+                "only for complete, non-floundered enumerations on exact programs). Non-trivial = complete enumeration judged for completeness; distinct = (program, goal, kind, sequence).",
+        "min_evals": 1500, "min_nontrivial": 300,
+        "require_observed": ["judged:complete-enumeration", "judged:definite-answer-sound", "flags-checked", "enumeration:resumed", "enumeration:stopped-early"],
+        "assumptions": COMMON_ASSUME,
+    },
+    "C04": {
+        "level": "exploration",
+        "rule": "cases = every program{}/goal{} block extracted at run time from /repo/tests/**/*.rs (plus seeded identifier-swap mutations of the goals) and seeded programs of all "
+                "fragments (basic, growing, coinductive, auto, hierarchy, associated types, built-in traits); each goal solved by a fresh SLG and a fresh recursive solver. "
+                "Refuted by None vs Unique, two Unique with different substitutions (mutual-instance test by unification, lifetimes ignored), or a Unique that is not an instance of "
+                "the other's definite guidance. Non-trivial = both answered and the pair is comparable (None/None, Unique/Unique, Unique/Definite); distinct = (program, goal, answers).",
+        "min_evals": 2500, "min_nontrivial": 800,
+        "require_observed": ["corpus-entries", "agree:unique-same-substitution", "pair:none|none", "generated-fragment:"],
+        "assumptions": COMMON_ASSUME + ["the oracle is the other solver: a defect shared by both solvers is invisible here (C01 covers it on its fragment)"],
+    },
+    "C05": {
+        "level": "exploration",
+        "rule": "cases = seeded programs with 3-6 (mutually) recursive structs/enums (fields incl. tuples, refs, arrays, scalars, own parameter), 1-2 #[auto] traits, optionally a "
+                "#[coinductive] trait whose impls depend only on it, explicit positive/negative impls on constructors; goals = every constructor x every trait + deeper ground types; "
+                "each goal on a fresh solver and in 3 sequences (reversed / rotated / shuffled, with repeats) on one solver instance per solver; every answer judged against the "
+                "greatest-fixed-point model (history-free). Ambiguous answers are refuted only when the model's whole derivation stays below 9 type nodes. "
+                "Non-trivial = definite model verdict; distinct = (program, goal, solver, fresh|warm).",
+        "min_evals": 20000, "min_nontrivial": 5000,
+        "require_observed": ["nontrivial:fresh:True", "nontrivial:fresh:False", "nontrivial:warm:True", "nontrivial:warm:False", "answer:slg:warm", "answer:recursive:warm"],
+        "assumptions": COMMON_ASSUME,
+    },
+    "C06": {
+        "level": "exploration",
+        "rule": "cases = seeded supertrait hierarchies (3-5 traits, Self bounds and bounds on the trait's own parameter, DAGs/diamonds/cycles), structs with where-clauses, "
+                "concrete/blanket impls; 8 pairs of closed goals forall<P,Q>{ if (H) { G } } / forall<P,Q>{ G } (H = T: Tr<..>, Vec<T>: Tr, FromEnv(W<T>)), all 16 posed in random "
+                "order with repeats to ONE solver instance per solver; every answer judged against the Horn closure of program + elaborated hypotheses (exact). "
+                "Non-trivial = definite verdict; distinct = (program, goal, solver).",
+        "min_evals": 8000, "min_nontrivial": 3000,
+        "require_observed": ["nontrivial:with-hyp:True", "nontrivial:with-hyp:False", "nontrivial:without-hyp:False", "answer:slg:with-hyp", "answer:recursive:with-hyp"],
+        "assumptions": COMMON_ASSUME,
+    },
+    "C07": {
+        "level": "exploration",
+        "rule": "cases = seeded coherent programs (each impl of a trait has a distinct self constructor) with 1-2 traits carrying an associated type, values that are concrete, an impl "
+                "parameter, Vec<param> or a projection on a bounded parameter; 10 goals: exists<U>{Normalize(<X as Tr>::A -> U)}, closed X: Tr<A = Y>, exists<U>{X: Tr<A = U>}, and "
+                "forall/if variants; expected value from an independent normaliser over the generator AST (impl whose header matches and whose where-clauses hold in the model; value "
+                "recursively normalised). Non-trivial = oracle decided (value or no impl) and the solver answer was judged; distinct = (program, goal, solver).",
+        "min_evals": 4000, "min_nontrivial": 1500,
+        "require_observed": ["nontrivial:normalize-to-value", "nontrivial:normalize-no-impl", "nontrivial:eq-closed-wrong-type-rejected", "nontrivial:eq-exists-value"],
+        "assumptions": COMMON_ASSUME,
+    },
+    "C08": {
+        "level": "exploration",
+        "rule": "cases = seeded programs declaring the lang-item traits Sized/Copy/Clone/Tuple/FnPtr, 2-5 structs/enums with fields over tuples, arrays, slices, str, refs, raw pointers, "
+                "fn pointers, scalars, never, dyn; libcore-style and user impls of Copy/Clone; 14 closed goals over types of nesting depth <= 3-4; expected truth from the model with "
+                "structural rules written from the property statement. Non-trivial = definite verdict; distinct = (program, goal, solver). The evidence histogram lists (trait, head constructor, verdict) classes seen.",
+        "min_evals": 5000, "min_nontrivial": 2000,
+        "require_observed": ["nontrivial:sized:@slice:False", "nontrivial:sized:adt:", "nontrivial:copy:@tuple:", "nontrivial:clone:@array:", "nontrivial:tuple_trait:@tuple:True", "nontrivial:fn_ptr_trait:@fn:True"],
+        "assumptions": COMMON_ASSUME,
+    },
+    "C09": {
+        "level": "exploration",
+        "rule": "bounded-progress restatement: every solve/solve_limited/solve_multiple(<=50 answers) returns within 300000 database callbacks (FaultDb budget, deterministic) and a 40 s guard "
+                "(only counted when >= 20000 callbacks were made), without panicking (exempt: the recursive solver's documented 'overflow depth reached') and without killing the worker "
+                "process (supervisor: death/hang reproduced alone = violation). Workload = all fragments incl. growing where-clauses, default and reduced limits. "
+                "Non-trivial = a solve that made >= 50 callbacks; distinct = (program, goal, configuration, entry point).",
+        "min_evals": 8000, "min_nontrivial": 300,
+        "require_observed": ["returned:slg:solve:", "returned:recursive:solve:", "returned:slg:solve_multiple:", "returned:slg:solve_limited:", "returned:recursive:solve_limited:"],
+        "deaths_are_violations": True, "case_timeout": 180,
+        "assumptions": COMMON_ASSUME + ["termination is restated as bounded work; the bound (300000 callbacks) is >1000x the largest count seen on the unchanged tree (see gauges)"],
+    },
+    "C10": {
+        "level": "exploration",
+        "rule": "cases = seeded programs (basic, coinductive, auto, associated-type fragments) with a pool of 8 goals; per solver: each goal on a fresh solver, then 2 random sequences of "
+                "8-16 goals (repeats) on one instance, each answer compared structurally with the fresh one; recursive solver additionally cache-on vs cache-off. "
+                "Non-trivial = a warm solve with non-empty history that equals the fresh answer; distinct = (program, goal, solver, history).",
+        "min_evals": 10000, "min_nontrivial": 5000,
+        "require_observed": ["cache-on==cache-off", "warm==fresh:slg:basic", "warm==fresh:recursive:basic", "warm==fresh:slg:auto", "warm==fresh:recursive:assoc"],
+        "assumptions": COMMON_ASSUME,
+    },
+    "C11": {
+        "level": "fault_enumeration",
+        "rule": "schedules enumerated per (program, goal, solver): K = should_continue invocations of an uninterrupted solve_limited; for every k <= K (24 sampled when K > 24): "
+                "'false only on invocation k' and 'false from invocation k on' (k = 0 is 'always'), plus 'never'. Checked: limited answer == full answer or a weaker Ambig "
+                "(definite guidance must generalise the full answer's substitution), no panic; then solve(same goal) and solve(sibling goal) on the same instance == fresh solver. "
+                "Non-trivial = a schedule that really interrupted and whose after-state was verified; distinct = (program, goal, solver, schedule).",
+        "min_evals": 20000, "min_nontrivial": 5000, "exhaustive": False,
+        "require_observed": ["after-interruption==fresh:slg", "after-interruption==fresh:recursive", "limited-compatible:slg:weaker-ambiguous", "limited-compatible:recursive:weaker-ambiguous", "schedule:never"],
+        "assumptions": COMMON_ASSUME,
+    },
+    "C12": {
+        "level": "fault_enumeration",
+        "rule": "crash points enumerated per (program, goal, solver): a clean run makes N database callbacks (interner() included for a third of the cases); for every n < N (all n when "
+                "N <= 150 quick / 400 thorough, else the first ones plus stratified samples) a fresh solver is run with the n-th callback panicking; after catch_unwind the same goal "
+                "and two siblings are solved on the same instance and must equal a fresh solver's answers (thorough: a second injected panic during the retry for every 5th point). "
+                "Hook H3 records what Drop for SolveState saw. Non-trivial = crash point reached and all retries equal fresh; distinct = (program, goal, solver, n).",
+        "min_evals": 15000, "min_nontrivial": 8000, "exhaustive": False,
+        "require_observed": ["retry==fresh:slg", "retry==fresh:recursive", "crash:slg:stack-empty-at-unwind", "goals-with-all-crash-points-enumerated"],
+        "assumptions": COMMON_ASSUME,
+    },
+    "C13": {
+        "level": "exploration",
+        "rule": "cases = seeded non-increasing programs (basic, coinductive, auto, associated-type fragments) x 3 permutations (structs, traits, impls shuffled; where-clauses reversed / "
+                "shuffled; enum variants swapped; item kinds interleaved) x 8 goals x both solvers; the displayed solution (names, not ids) must be identical. "
+                "Non-trivial = comparison made; distinct = (permuted program, goal, solver, answer).",
+        "min_evals": 10000, "min_nontrivial": 5000,
+        "require_observed": ["same-answer:slg:basic", "same-answer:recursive:basic", "same-answer:slg:auto", "same-answer:recursive:assoc"],
+        "assumptions": COMMON_ASSUME,
+    },
+    "C28": {
+        "level": "exploration",
+        "rule": "universal monitor on every returned solution and every enumerated SLG answer: one entry per query unknown, kinds match (incl. integer/float restriction), no inference "
+                "variables, bound variables refer to the solution's own binders, binder/placeholder universes < query universes, and applying it to the query neither panics nor leaves "
+                "a dangling variable. Workload = all generator fragments + a fixed program with type/lifetime/const unknowns under nested forall (1 case in 5). "
+                "Non-trivial = a checked solution that carries a substitution; distinct = (program, goal, solver, answer).",
+        "min_evals": 5000, "min_nontrivial": 400,
+        "require_observed": ["well-formed:slg:unique", "well-formed:recursive:unique", "well-formed:slg:enumerated-answers", "nontrivial:lifetimes+consts+nested-forall", "well-formed:slg:definite"],
+        "assumptions": COMMON_ASSUME,
+    },
 }
 
 HOOK_COMMITS = ["d77ca2a", "4f79b4b", "3978b55"]
